@@ -130,6 +130,9 @@ fn main() {
         }
         let op = ws[0];
         let args = &ws[1..];
+        // everything answered so far must be on the pipe before the next call: if it aborts or never returns, the driver of the
+        // check attributes the failure to exactly this line
+        out.flush().unwrap();
         let r = std::panic::catch_unwind(|| match dispatch::run(op, args) {
             Some(s) => s,
             None => extra::run(op, args).unwrap_or_else(|| "bad-op".to_string()),
